@@ -116,6 +116,8 @@ def gen_history(rng, n, nops):
             if len(set(k for k, _ in kws)) < len(kws):
                 kws = kws[:1]
             sel = [i for i in range(n) if py_holds(trows, i, kws, extras)]
+            if not sel and n and rng.random() < 0.8:
+                kws, sel = [], list(range(n))
             nrow, ncol, kind = len(sel), len(cols), 'ok'
             colstr = ','.join(cols)
             if malformed:
@@ -221,7 +223,7 @@ def B_decl(ty):
 def cases(ctx):
     rng = ctx.rng
     out = []
-    for h in range(ctx.scale(260, 3000)):
+    for h in range(ctx.scale(1200, 8000)):
         n = rng.choice([0, 1, 2, 3, 4, 6, 8, 12, 20, 30])
         nops = rng.randrange(1, 13)
         rows, ops = gen_history(rng, n, nops)
